@@ -203,7 +203,7 @@ func (parser *Parser) ParseSourceBytes(src []byte, srcPath string,
 		if checkSrc {
 			stagecodePaths := filepath.SplitList(os.Getenv("PATH"))
 			seenPaths := make(map[string]struct{}, len(incPaths)+len(stagecodePaths))
-			for f := range ast.Files {
+			for _, f := range sortedKeys(ast.Files) {
 				p := filepath.Dir(f)
 				if _, ok := seenPaths[p]; !ok {
 					stagecodePaths = append(stagecodePaths, p)
